@@ -240,22 +240,16 @@ def _light_nodes(m):
 
 
 def rec_issues(items, opts):
-    """opts: kind 'errors' | 'pep8'; provenance (bool: also list issues for diff-parsed and unpickled trees)"""
+    """opts: kind 'errors' | 'pep8'; provenance (bool: also list issues for incrementally parsed and unpickled trees).
+    The second listing of every tree is made in a second pass, in reverse order, after all the other trees of the
+    shard have been listed: hidden state kept between calls shows up as a different second list."""
     import pickle
     from parso.python import pep8
     kind = opts['kind']
     out = []
-    for tid, text, ver, origin in items:
-        tr = {'id': tid, 'ver': ver, 'origin': origin, 'kind': kind, 'inp': cps(text), 'nodes': [], 'calls': [],
-              'raised': False, 'exc': '', 'd0': 0, 'd1': 0, 'strict': False, 'prov': [], 'text': text,
-              'fs39': tuple(int(x) for x in ver.split('.')) >= (3, 9), 'nontrivial': False, 'cfg': opts.get('cfg', '')}
-        try:
-            g, m = record.parse(text, ver)
-        except Exception as e:  # noqa: parse failures belong to C02
-            continue
-        tr['nodes'] = _light_nodes(m)
-        tr['d0'] = intern(m.dump(indent=None))
+    kept = []
 
+    def make_listing(g):
         def listing(mod):
             if kind == 'errors':
                 return list(g.iter_errors(mod))
@@ -268,13 +262,24 @@ def rec_issues(items, opts):
             elif cfgname == 'short':
                 config = pep8.PEP8NormalizerConfig(max_characters=20)
             return g._get_normalizer_issues(mod, config) if config else g._get_normalizer_issues(mod)
+        return listing
+
+    for tid, text, ver, origin in items:
+        tr = {'id': tid, 'ver': ver, 'origin': origin, 'kind': kind, 'inp': cps(text), 'nodes': [], 'calls': [],
+              'raised': False, 'exc': '', 'd0': 0, 'd1': 0, 'strict': False, 'prov': [], 'text': text,
+              'fs39': tuple(int(x) for x in ver.split('.')) >= (3, 9), 'nontrivial': False, 'cfg': opts.get('cfg', '')}
         try:
-            tr['calls'].append(_issue_list(listing(m)))
+            g, m = record.parse(text, ver)
+        except Exception as e:  # noqa: parse failures belong to C02
+            continue
+        tr['nodes'] = _light_nodes(m)
+        tr['d0'] = intern(m.dump(indent=None))
+        listing = make_listing(g)
+        try:
             tr['calls'].append(_issue_list(listing(m)))
         except Exception as e:  # noqa
             tr['raised'] = True
             tr['exc'] = record.exc_key(e)
-        tr['d1'] = intern(m.dump(indent=None))
         if kind == 'errors':
             try:
                 g.parse(text, error_recovery=False)
@@ -284,15 +289,33 @@ def rec_issues(items, opts):
             try:
                 m2 = pickle.loads(pickle.dumps(m))
                 tr['prov'].append(_issue_list(listing(m2)))
-                # incremental: parse a perturbed text first, then the real one through the diff parser
                 from parso.python.diff import DiffParser
-                half = text[:len(text) // 2]
-                old = g.parse(half)
-                dp = DiffParser(g._pgen_grammar, g._tokenizer, old)
-                m3 = dp.update(record.parso.split_lines(half, keepends=True), record.parso.split_lines(text, keepends=True))
-                tr['prov'].append(_issue_list(listing(m3)))
+                lines = record.parso.split_lines(text, keepends=True)
+                olds = [text[:len(text) // 2]]
+                if len(lines) > 2:
+                    olds.append(''.join(lines[1:]))           # the edit inserts the first line
+                    olds.append(''.join(lines[:-2]) + 'zz = 0\n')
+                for old_text in olds:
+                    old = g.parse(old_text)
+                    try:
+                        listing(old)                          # an earlier listing on the tree that is about to be reused
+                    except Exception:  # noqa: a failure on the OLD text is that text's own trace, not this one's
+                        pass
+                    dp = DiffParser(g._pgen_grammar, g._tokenizer, old)
+                    m3 = dp.update(record.parso.split_lines(old_text, keepends=True), lines)
+                    tr['prov'].append(_issue_list(listing(m3)))
             except Exception as e:  # noqa
                 tr['prov'].append([{'code': -7, 'mp': record.exc_key(e), 'ml': 1, 's': [0, 0], 'e': [0, 0]}])
-        tr['nontrivial'] = bool(tr['calls'] and tr['calls'][0])
+        kept.append((tr, m, listing))
         out.append(tr)
+    for tr, m, listing in reversed(kept):
+        if tr['raised']:
+            continue
+        try:
+            tr['calls'].append(_issue_list(listing(m)))
+        except Exception as e:  # noqa
+            tr['raised'] = True
+            tr['exc'] = record.exc_key(e)
+        tr['d1'] = intern(m.dump(indent=None))
+        tr['nontrivial'] = bool(tr['calls'] and tr['calls'][0])
     return out
